@@ -6,10 +6,21 @@
 package tl
 
 import (
+	"crypto/rand"
 	"math/big"
 
 	"github.com/xelaj/go-dry"
 )
+
+// secureRandomBytes reads bytes from the OS cryptographic random source: these values are using as nonces of key
+// exchange, math/rand (predictable, seeded by time) is not an option for them
+func secureRandomBytes(size int) []byte {
+	b := make([]byte, size)
+	if _, err := rand.Read(b); err != nil {
+		panic(err)
+	}
+	return b
+}
 
 // Int128 is alias-like type for fixed size of big int (1024 bit value). It using only for tl objects encoding
 // cause native big.Int isn't supported for en(de)coding
@@ -28,7 +39,7 @@ func RandomInt128() *Int128 {
 		return &Int128{Int: big.NewInt(0).SetBytes(b)}
 	}
 	i := &Int128{Int: big.NewInt(0)}
-	i.SetBytes(dry.RandomBytes(Int128Len))
+	i.SetBytes(secureRandomBytes(Int128Len))
 	return i
 }
 
@@ -72,7 +83,7 @@ func RandomInt256() *Int256 {
 		return &Int256{Int: big.NewInt(0).SetBytes(b)}
 	}
 	i := &Int256{big.NewInt(0)}
-	i.SetBytes(dry.RandomBytes(Int256Len))
+	i.SetBytes(secureRandomBytes(Int256Len))
 	return i
 }
 
